@@ -278,7 +278,8 @@ def _rv_ops(r):
 def r5(ctx):
     R = "C16-R5"
     ctx.rule(R, "every TcpSegment built on an existing connection takes its window from advertised_window(recv_buf_cap, recv_buf.len()), "
-                "a constant 0 (RST) or DEFAULT_WINDOW (SYN / SYN-ACK, informational); advertised_window = min(cap - len, u16::MAX)")
+                "or the constant 0 (RST) - the handshake segments included (SYN, SYN-ACK and their retransmissions advertise "
+                "advertised_window(recv_buf_cap, 0)); advertised_window = min(cap - len, u16::MAX)")
     n = 0
     cnt = {}
     for b in sorted(ctx.w.bodies.values(), key=lambda b: b.id):
@@ -297,7 +298,12 @@ def r5(ctx):
                     if c.get("v") == 0:
                         ctx.ok(R, k, s["s"], "window 0 (RST)")
                     else:
-                        ctx.info(R, k, s["s"], "constant window (SYN / SYN-ACK handshake segments over-advertise; the receiver clamps in C16-R2)")
+                        # a handshake segment that advertises a constant invites a first flight larger than the receive buffer: the receiver
+                        # truncates it and gets more than one window ahead of what the sender believes after a go-back-N rewind, whose ACKs
+                        # the sender then discards until it aborts with TimedOut - without any loss
+                        ctx.bad(R, k, s["s"], f"`{b.id}` advertises the constant window {c.get('v')} in a handshake segment instead of what the receive buffer can take "
+                                "(advertised_window(recv_buf_cap, 0)): with recv_buf_cap below the constant the first flight overruns the receiver, and after a "
+                                "retransmission rewind the sender discards the receiver's ACKs and aborts although nothing was lost")
                     continue
                 at = Slicer(ctx.w).atoms(b, op)
                 ok = "call:turmoil_net::kernel::tcp::advertised_window" in at
@@ -366,11 +372,42 @@ def r7(ctx):
             at = Slicer(ctx.w).atoms(he, he.term(sbb)["d"])
             if "field:turmoil_net::kernel::packet::TcpSegment::ack" in at and "field:" + T + "snd_una" in at:
                 fresh.append((sbb, te, fe))
+        def decides(sbb, bb):
+            """the test in sbb can veto the write in bb: bb is reachable from sbb but not from every successor of sbb"""
+            succ = he.succ(sbb)
+            return bb in he.reachable(sbb) and any(bb not in he.reachable(x) for x in succ)
         for bb, s in ws:
             ok = any(he.dominated_by_any(bb, edges=te) or he.dominated_by_any(bb, edges=fe) for sbb, te, fe in fresh)
+            if not ok:
+                # `rel > 0 || (rel == 0 && ..)`: every path to the write consults the comparison (one such test dominates it) and the
+                # comparison can veto it (one such test has a side from which the write is unreachable)
+                ok = any(he.dominated_by_block(bb, sbb) for sbb, te, fe in fresh) and any(decides(sbb, bb) for sbb, te, fe in fresh)
             ctx.inst(R, "handle_established:window-from-fresh-ack", ok, s["s"], "snd_wnd follows only ACKs that are not behind snd_una" if ok else
                      "snd_wnd is overwritten from every ACK-flagged segment, stale ones included: ACKs delivered out of order (windows 3000 / 2000 / 1000 / 0 "
                      "reversed) re-open a window the peer has closed and the sender puts 3 x 1000 bytes in flight against an advertised window of 0")
+        # (c) two ACKs with the *same* ack number can swap places too (the ACK of a segment, window 0, and the window update that follows the
+        # reader's drain): the receiver's right edge never moves left, so a segment that does not advance snd_una may only widen the window -
+        # the write must also hang on a comparison of the segment's window with the current snd_wnd (or on the `advanced` outcome)
+        widen = []
+        for sbb, te, fe, o in guards_on(he, lambda o: True):
+            at = Slicer(ctx.w).atoms(he, he.term(sbb)["d"])
+            if "field:turmoil_net::kernel::packet::TcpSegment::window" in at and "field:" + T + "snd_wnd" in at:
+                widen.append((sbb, te, fe))
+        for bb, s in ws:
+            # the comparison decides the write: the write's block is control-dependent on it (reachable on one side only), or a flag it
+            # computes is tested on the way (the slice of some dominating test contains both operands)
+            ok = any(he.dominated_by_any(bb, edges=te) != he.dominated_by_any(bb, edges=fe) for sbb, te, fe in widen)
+            if not ok:
+                ok = any(decides(sbb, bb) for sbb, te, fe in widen)
+            if not ok:
+                for sbb, tt in switch_blocks(he):
+                    if any(he.dominated_by_edge(bb, (sbb, x)) for x in he.succ(sbb)) and len(he.succ(sbb)) > 1:
+                        at = Slicer(ctx.w).atoms(he, tt["d"])
+                        if "field:turmoil_net::kernel::packet::TcpSegment::window" in at and "field:" + T + "snd_wnd" in at:
+                            ok = True
+            ctx.inst(R, "handle_established:equal-ack-only-widens", ok, s["s"], "a segment that does not advance snd_una can only widen the window" if ok else
+                     "snd_wnd is overwritten by any segment whose ack equals snd_una, whatever its window: when the ACK of a segment (window 0) and the window update "
+                     "that follows the reader's drain swap places on the wire, the stale 0 wins, and with nothing in flight and no persist timer both sides wait for ever - no packet was lost")
         if not ws and ctx.strict:
             ctx.bad(R, "handle_established:window-from-fresh-ack", he.span, "no write snd_wnd := segment.window found")
     so = ctx.body(R, "turmoil_net::kernel::tcp::segment_one")
@@ -408,7 +445,7 @@ def r7(ctx):
             ctx.inst(R, "segment_one:every-segment-carries-bytes", not missing, ct["s"], "unsent, MSS and the remaining window are all positive when a data segment is cut" if not missing else
                      f"a data segment is cut to min(..) without testing {missing} > 0: with an MTU no larger than the headers (IPv6 with mtu 60) the MSS is 0, the segment is empty, "
                      "snd_nxt does not advance and segment_one emits segments forever")
-    ctx.floor(R, 2)
+    ctx.floor(R, 3)
 
 
 def run(ctx):
